@@ -403,7 +403,16 @@ def _validate_chunk(ctx, area, module, groups, hids, cfg, deque, timeout, cfg_te
         at = cur.index(h)
         accepted += at
         cur = cur[at + 1:]
-        if len(rejected) >= max_cand:
+        # the budget of rejected histories is shared by the chunks of one call: a change that breaks most histories must
+        # not cost chunks x max_cand TLC runs before the first one is reported
+        with _lock:
+            budget = getattr(ctx, "_rej_budget", None)
+            if budget is not None:
+                budget[0] += 1
+                spent = budget[0] >= max_cand
+            else:
+                spent = False
+        if len(rejected) >= max_cand or spent:
             if not quiet and cur:
                 ctx.notes.append("%d rejected histories in one chunk of %s; remaining %d histories of that chunk not validated"
                                  % (max_cand, module, len(cur)))
@@ -432,6 +441,7 @@ def validate_histories(ctx, area, module, trace_path, cfg=None, field="hid", max
         chunks.append(cur)
     if not chunks:
         return 0, []
+    ctx._rej_budget = [0]
     with ThreadPoolExecutor(max_workers=parallel) as ex:
         futs = [ex.submit(_validate_chunk, ctx, area, module, groups, c, cfg, deque, timeout, cfg_text, max_cand, i, quiet)
                 for i, c in enumerate(chunks)]
